@@ -102,6 +102,12 @@ func run(r *ev.Run, cfg props.Cfg) {
 		}
 	}
 	wg.Wait()
+	// long-lived connections: many envelopes (more than 1 MiB in total) over one wire/net ioConn
+	for _, s := range sers {
+		for i := 0; i < cfg.Pick(1, 6); i++ {
+			longConn(r, gen.NewRand(cfg.Seed, fmt.Sprintf("c16/long/%s/%d", s.name, i)), s.name, s.ser)
+		}
+	}
 	r.Assume("the reader models an open connection: it never returns (0,nil) for a non-empty buffer and reports EOF only after the last byte (the statement excludes EOF together with data)")
 }
 
@@ -133,15 +139,30 @@ func checkStream(r *ev.Run, rng *rand.Rand, sname string, ser wire.EnvelopeSeria
 				}
 			}
 		}
+		if rng.Intn(10) == 0 {
+			// beyond the protobuf frame limit: the writer has to refuse it without touching the stream
+			b := make([]byte, 65536+rng.Intn(70000))
+			rng.Read(b)
+			env.Msg, t = &wire.AuthResponseMsg{Signature: b}, wire.AuthResponse
+			r.Count("envelopes_beyond_64KiB_offered", 1)
+		}
 		var one bytes.Buffer
 		if err := ser.Encode(&one, env); err != nil {
 			r.Count("abstained_encode_error", 1)
+			if one.Len() != 0 {
+				r.Violation("C16/"+sname+"/refused-envelope-left-bytes", fmt.Sprintf("Encode refused a %s envelope (%v) but had already written %d bytes to the stream: every later envelope on it is lost", t, err, one.Len()),
+					witness{Serializer: sname, Types: []string{t.String()}, Partition: "encode", StreamHex: hexTrunc(one.Bytes())})
+			}
 			continue
 		}
 		// reference: decode from the contiguous buffer
-		ref, err := ser.Decode(bytes.NewReader(one.Bytes()))
-		if err != nil {
-			r.Count("abstained_reference_decode_error", 1) // C14's business
+		rd := bytes.NewReader(one.Bytes())
+		ref, err := ser.Decode(rd)
+		if err != nil || rd.Len() != 0 {
+			// the writer produced a frame its reader cannot take back as one envelope: whatever
+			// follows on the stream is lost for every chunking (also C14's business)
+			r.Violation("C16/"+sname+"/frame-not-readable", fmt.Sprintf("a %s envelope of %d bytes was written without error but reading it back gives %v with %d bytes left over", t, one.Len(), err, rd.Len()),
+				witness{Serializer: sname, Types: []string{t.String()}, Partition: "whole", StreamHex: hexTrunc(one.Bytes())})
 			continue
 		}
 		stream.Write(one.Bytes())
@@ -242,6 +263,53 @@ func checkStream(r *ev.Run, rng *rand.Rand, sname string, ser wire.EnvelopeSeria
 	if idx == 0 {
 		r.Sample(map[string]any{"serializer": sname, "message_types": types, "stream_len": L, "partitions": "whole, 1-byte, every split point, mss, random"})
 	}
+}
+
+// longConn sends a long history of envelopes over one connection object.
+func longConn(r *ev.Run, rng *rand.Rand, sname string, ser wire.EnvelopeSerializer) {
+	var stream bytes.Buffer
+	var want []string
+	target := (1 << 20) + rng.Intn(1<<20)
+	for stream.Len() < target {
+		t := gen.MsgTypes[rng.Intn(len(gen.MsgTypes))]
+		env := gen.Envelope(rng, t, gen.MsgOpts{Small: true})
+		if rng.Intn(2) == 0 {
+			b := make([]byte, 1000+rng.Intn(3000))
+			rng.Read(b)
+			env.Msg = &wire.AuthResponseMsg{Signature: b}
+		}
+		var one bytes.Buffer
+		if ser.Encode(&one, env) != nil {
+			continue
+		}
+		ref, err := ser.Decode(bytes.NewReader(one.Bytes()))
+		if err != nil {
+			continue
+		}
+		stream.Write(one.Bytes())
+		want = append(want, canon.String(ref))
+	}
+	var cs []int
+	mss := []int{1460, 536, 4096, 65536}[rng.Intn(4)]
+	for n := 0; n < stream.Len(); n += mss {
+		cs = append(cs, mss)
+	}
+	cr := &chunkReader{data: stream.Bytes(), chunks: cs}
+	conn := wirenet.NewIoConn(rwc{cr}, ser)
+	r.Count("long_connections", 1)
+	r.Max("max_bytes_over_one_connection", int64(stream.Len()))
+	for j := range want {
+		var env *wire.Envelope
+		err := safely(func() (e error) { env, e = conn.Recv(); return })
+		if err != nil || canon.String(env) != want[j] {
+			r.Violation("C16/"+sname+"/long-connection", fmt.Sprintf("envelope %d of %d on one long-lived connection (%d bytes in total, read in chunks of %d) was not decoded as sent: %v", j, len(want), stream.Len(), mss, err),
+				witness{Serializer: sname, Partition: "long-connection", Envelope: j})
+			r.Case(fmt.Sprintf("long|%s|%d|%d", sname, len(want), mss), true)
+			return
+		}
+	}
+	r.Count("envelopes_over_long_connections", int64(len(want)))
+	r.Case(fmt.Sprintf("long|%s|%d|%d", sname, len(want), mss), true)
 }
 
 func safely(f func() error) (err error) {
